@@ -31,6 +31,11 @@ pub enum CloneScenario {
 #[derive(Clone, PartialEq, Eq, Debug, Hash, PartialOrd, Ord)]
 pub enum SerdeScenario {
     JsonRoundTrip,
+    /// the same through `serde_json::Value` (deserializer with a size hint)
+    JsonValueRoundTrip,
+    JsonValueTruncated(usize),
+    JsonValueUndecodable(usize),
+    JsonValueExtraElement,
     BincodeRoundTrip,
     JsonTruncated(usize),
     JsonUndecodable(usize),
@@ -167,8 +172,10 @@ pub fn enumerate(meta: &Meta, family: Family) -> Vec<PathSpec> {
         Family::Serde => {
             for (k, v) in meta.variants.iter().enumerate() {
                 let n = v.fields.len();
-                let mut scen = vec![SerdeScenario::JsonRoundTrip, SerdeScenario::BincodeRoundTrip, SerdeScenario::JsonExtraElement];
+                let mut scen = vec![SerdeScenario::JsonRoundTrip, SerdeScenario::BincodeRoundTrip, SerdeScenario::JsonExtraElement, SerdeScenario::JsonValueRoundTrip, SerdeScenario::JsonValueExtraElement];
                 for p in 0..n {
+                    scen.push(SerdeScenario::JsonValueTruncated(p));
+                    scen.push(SerdeScenario::JsonValueUndecodable(p));
                     scen.push(SerdeScenario::JsonTruncated(p));
                     scen.push(SerdeScenario::JsonUndecodable(p));
                     scen.push(SerdeScenario::JsonWrongType(p));
@@ -688,17 +695,18 @@ fn run_serde(r: &mut Run, variant: usize, scenario: &SerdeScenario) {
         ModelRec { variant, place: Placement::Inline, vals }
     };
     match scenario {
-        SerdeScenario::JsonRoundTrip => {
-            r.out.log.push("serde_json::to_string(&slot0)".into());
-            match r.g.to_json(0) {
+        SerdeScenario::JsonRoundTrip | SerdeScenario::JsonValueRoundTrip => {
+            let via_value = *scenario == SerdeScenario::JsonValueRoundTrip;
+            r.out.log.push(if via_value { "serde_json::to_value(&slot0)".into() } else { "serde_json::to_string(&slot0)".into() });
+            match if via_value { r.g.to_json_value(0) } else { r.g.to_json(0) } {
                 Ok(text) => {
                     let want = json_of(&toks);
                     if text != want {
                         r.find("C15", "C15/json-encoding".into(), format!("record serialised as {}, its fields in declaration order are {}", text, want));
                     }
                     r.after_op("to_json", "C15");
-                    r.out.log.push(format!("slot1 = serde_json::from_str({:?})", text));
-                    match r.g.from_json(1, variant, &text) {
+                    r.out.log.push(format!("slot1 = serde_json::{}({:?})", if via_value { "from_value" } else { "from_str" }, text));
+                    match if via_value { r.g.from_json_value(1, variant, &text) } else { r.g.from_json(1, variant, &text) } {
                         Ok(()) => {
                             r.model[1] = Some(decoded_model(r));
                             r.after_op("from_json", "C15");
@@ -733,7 +741,19 @@ fn run_serde(r: &mut Run, variant: usize, scenario: &SerdeScenario) {
         }
         other => {
             // reference input = what the model says the encoding is
+            let via_value = matches!(other, SerdeScenario::JsonValueTruncated(_) | SerdeScenario::JsonValueUndecodable(_) | SerdeScenario::JsonValueExtraElement);
             let (json, bytes, name): (Option<String>, Option<Vec<u8>>, String) = match other {
+                SerdeScenario::JsonValueTruncated(p) => (Some(json_of(&toks[..*p])), None, format!("json-value-truncated-to-{}", p)),
+                SerdeScenario::JsonValueUndecodable(p) => {
+                    let mut t = toks.clone();
+                    t[*p] = vtypes::POISON_TOK;
+                    (Some(json_of(&t)), None, format!("json-value-undecodable-at-{}", p))
+                }
+                SerdeScenario::JsonValueExtraElement => {
+                    let mut t = toks.clone();
+                    t.push(7);
+                    (Some(json_of(&t)), None, "json-value-extra-element".to_owned())
+                }
                 SerdeScenario::JsonTruncated(p) => (Some(json_of(&toks[..*p])), None, format!("json-truncated-to-{}", p)),
                 SerdeScenario::JsonUndecodable(p) => {
                     let mut t = toks.clone();
@@ -760,6 +780,7 @@ fn run_serde(r: &mut Run, variant: usize, scenario: &SerdeScenario) {
             let _ = n;
             r.out.log.push(format!("slot1 = decode({})", name));
             let res = match (&json, &bytes) {
+                (Some(j), _) if via_value => catch_unwind(AssertUnwindSafe(|| r.g.from_json_value(1, variant, j))),
                 (Some(j), _) => catch_unwind(AssertUnwindSafe(|| r.g.from_json(1, variant, j))),
                 (_, Some(b)) => catch_unwind(AssertUnwindSafe(|| r.g.from_bincode(1, variant, b))),
                 _ => unreachable!(),
